@@ -1940,6 +1940,14 @@ class Interp:
                 cell, path = self.place_loc(st, fr, dest)
                 self.store(st, cell, path, args[0])
                 return self.goto(st, fr, target, out)
+        if name in ('std::ops::FnMut::call_mut', 'std::ops::Fn::call', 'std::ops::FnOnce::call_once') and args and getattr(self, 'inline_closures', None):
+            # a closure of the analysed function handed to a generic helper and called there: part of the analysed function
+            # when the rule asked for it by name (calllog inline=)
+            cv = args[0]
+            while isinstance(cv, Ref):
+                cv = self.load(st, cv.cell, cv.path)
+            if isinstance(cv, Clo) and cv.path in self.crate.fns and any(cv.path.endswith(k) for k in self.inline_closures):
+                return self.call_closure_shim(st, fr, self.crate.fns[cv.path], args, dest, target, out)
         local_fn = self.crate.fn(name) if c.get('local') else None
         fresh_helper = local_fn is not None and name not in KNOWN_FNS and name not in self.opaque   # extracted after the reference tree: see inline
         if local_fn is not None and (fresh_helper or not self.uninterpreted(name)):
